@@ -13,9 +13,10 @@ LEMMAS = {}
 
 
 class Lemma:
-    def __init__(self, name, vars_, stmt, induct=None, uses=(), pats=None, tags=(), hints=None, doc='', ih_instances=None, defs=None):
+    def __init__(self, name, vars_, stmt, induct=None, uses=(), pats=None, tags=(), hints=None, doc='', ih_instances=None, defs=None, traits=None):
         self.name, self.vars, self.stmt, self.induct, self.uses = name, list(vars_), stmt, induct, tuple(uses)
         self.ih_instances = ih_instances
+        self.traits = traits      # ground instances of interface traits ASSUMED of sub-constructs (hypotheses of the property, listed in the evidence)
         self.defs = defs          # instances of definitions used as hypotheses; each is its own obligation (proved from the definitions)
         self.pats, self.tags, self.hints, self.doc = pats, tuple(tags), hints, doc
         LEMMAS[name] = self
@@ -52,6 +53,8 @@ class Lemma:
                 hyps.append(t.implies(t.gt(vs[var], t.I(base)), ih))
         if self.hints:
             hyps.extend(self.hints(vs))
+        if self.traits:
+            hyps.extend(self.traits(vs))
         out = []
         if self.defs:
             for i, d in enumerate(self.defs(vs)):
